@@ -204,12 +204,41 @@ def report_applied(case, dry, real):
             tree[q] = None           # path mode: missing parent directories are created
             q = os.path.dirname(q)
     actual = {p: v[0] for p, v in real["after"].items()}
+    if case["mode"] == "name":
+        # the same statement through the Lean definition (C05.applyReport, Model/Report.lean), run by the driver:
+        # which paths exist after the report is replayed on the initial tree
+        v = spec_report_mismatch(case, dry, real, actual)
+        if v:
+            return v
     if tree != actual:
         only_exp = sorted(set(tree) - set(actual))[:4]
         only_act = sorted(set(actual) - set(tree))[:4]
         diff = sorted(p for p in set(tree) & set(actual) if tree[p] != actual[p])[:4]
         return (f"the tree after the real run is not the dry run's report applied to the initial tree: only in the report's tree "
                 f"{only_exp}, only in the real tree {only_act}, different content {diff} (mode {case['mode']}, strategy {case['strategy']})")
+    return None
+
+
+def spec_report_mismatch(case, dry, real, actual):
+    from .common import enc_str, enc_list
+    req, _, _ = fsrun.model_request(case, real)
+    entries = req.split(" ")[4]
+    considered = [(d, rel) for d, rel, _ in dry["gens"]]
+    events = []
+    for src, dst, ov in dry["events"]:
+        cands = sorted({d for d, rel in considered if rel == src})
+        if len(cands) != 1:
+            return None
+        events.append(f"{enc_str(cands[0])}:{enc_str(src)}:{enc_str(dst)}")
+    paths = sorted(set(real["before"]) | set(actual))
+    answer = common.run_model(["report " + " ".join([entries, enc_list(events), enc_list([enc_str(p) for p in paths])])])[0]
+    if answer == "bad-op":
+        return "the model driver rejected the report request"
+    got = [x == "T" for x in common.dec_list(answer)]
+    for p, exists in zip(paths, got):
+        if exists != (p in actual):
+            return (f"C05.applyReport (Lean) replayed on the initial tree says {p!r} {'exists' if exists else 'does not exist'}, "
+                    f"the real run left it {'present' if p in actual else 'absent'} (strategy {case['strategy']})")
     return None
 
 
